@@ -613,12 +613,15 @@ def build_unit(repo, template_text):
             pos = e + len('/*@end*/')
             lines = [l.strip() for l in arg.strip().splitlines() if l.strip()]
             d = extract_lalrpop_action(repo, lines[0], ex)
-            o = dict(l.split(None, 1) for l in lines[1:])
+            o = dict((l.split(None, 1) + [''])[:2] for l in lines[1:])
             if 'symbols' in o and not re.search(o['symbols'], d['symbols']):
                 raise ExtractError(f"lost anchor: {lines[0]}: symbols `{d['symbols']}` do not match /{o['symbols']}/")
             ex.items[-1]['name'] = o['fn']
             ex.items[-1]['kind'] = 'fn'
-            out.append(f"pub fn {o['fn']}({d['param']}: &str) -> (r: {o['ret']})\n{contract.rstrip()}\n{{\n    {d['action']}\n}}")
+            if 'plain' in o or any(l == 'plain' for l in lines[1:]):
+                out.append(f"pub fn {o['fn']}({d['param']}: &str) -> {o['ret']}\n{{\n    {d['action']}\n}}")
+            else:
+                out.append(f"pub fn {o['fn']}({d['param']}: &str) -> (r: {o['ret']})\n{contract.rstrip()}\n{{\n    {d['action']}\n}}")
         elif kind == 'fn':
             e = template_text.find('/*@end*/', pos)
             if e < 0:
